@@ -349,6 +349,12 @@ def finishMany (env : Env) (rounds : List Env) : Env :=
   let env1 : Env := { env with many := rounds.flatMap (·.many) ++ env.many }
   keys.foldl (fun e k => (e.insert k (.list (rounds.filterMap (fun r => r.b.get k)) false)).setMany k) env1
 
+/-- `expected_many_captures` of `collect_bindings` (after fix 2a1b125d it is counted like
+`match_list_pattern` does: the dotted-tail pattern and the tail element of an improper list are not part of
+what the ellipsis can capture; `saturating_sub` = truncated subtraction). -/
+def expectedCaptures (ps : List Pat) (len : Nat) (improper : Bool) : Nat :=
+  ((if improper then len - 1 else len) + 1) - (if lastIsRest ps then ps.length - 1 else ps.length)
+
 /-- The `expected_many_captures == 0` arm. -/
 def emptyMany (env : Env) (p : Pat) : Env :=
   p.vars.foldl (fun e k => (e.insert k Sexp.nil).setMany k) env
@@ -368,9 +374,7 @@ def collectOne : Pat → Sexp → Env → Except Err Env
   | .nested children, e, env =>
       match e with
       | .list l imp =>
-          -- `list.len() + 1 - patterns.len()` on `usize`: overflow panics (debug) / wraps (release)
-          if l.length + 1 < children.length then .error .panic
-          else collectItems (l.length + 1 - children.length) l.length imp children l env
+          collectItems (expectedCaptures children l.length imp) l.length imp children l env
       | e =>
           match children with
           | [.many _, .rest p] => collectOne p e env
@@ -413,8 +417,7 @@ end
 
 /-- `collect_bindings(patterns, list, .., improper)` from an empty binding map. -/
 def collect (ps : List Pat) (xs : List Sexp) (improper : Bool) : Except Err Env :=
-  if xs.length + 1 < ps.length then .error .panic
-  else collectItems (xs.length + 1 - ps.length) xs.length improper ps xs {}
+  collectItems (expectedCaptures ps xs.length improper) xs.length improper ps xs {}
 
 /-- `matchP`: what `SteelMacro::match_case` + `collect_bindings` do for one case. -/
 def matchP (sc : List Name) (ps : List Pat) (xs : List Sexp) (improper : Bool) : Option Env :=
@@ -746,38 +749,24 @@ def parseItems : Nat → Bool → Nat → Bool →
 
 /-! ## Classification flags (the negated conjuncts of the guard `G`) -/
 
-/-- What was observed while M expanded a program.  `a`,`b`,`c` are raised by expansion steps, `d`,`e`,`f`
+/-- What was observed while M expanded a program.  `a`,`b`,`c` are raised by expansion steps, `d`,`f`
 by the macro definitions. -/
 structure Flags where
   a : Bool := false   -- a binder in scope at a use is spelled like a free identifier of the template used
   b : Bool := false   -- nested template expansions exchange identifiers of the same spelling
   c : Bool := false   -- … and that free identifier is a literal of some macro (literal shadowed at the use site)
   d : Bool := false   -- a template uses the spelling of one of its own binders outside that binder's scope
-  e : Bool := false   -- a pattern list has an ellipsis followed by a dotted tail
   f : Bool := false   -- a pattern variable is used under more ellipses than it has in the pattern
   g : Bool := false   -- an expansion produced a `define-syntax` form (macro-defining macro)
   deriving DecidableEq, Repr, Inhabited
 
 def Flags.or (x y : Flags) : Flags :=
-  { a := x.a || y.a, b := x.b || y.b, c := x.c || y.c, d := x.d || y.d, e := x.e || y.e, f := x.f || y.f,
+  { a := x.a || y.a, b := x.b || y.b, c := x.c || y.c, d := x.d || y.d, f := x.f || y.f,
     g := x.g || y.g }
 
-def Flags.none (x : Flags) : Bool := !(x.a || x.b || x.c || x.d || x.e || x.f || x.g)
+def Flags.none (x : Flags) : Bool := !(x.a || x.b || x.c || x.d || x.f || x.g)
 
 /-! Static properties of one case that the classification reports (computed at definition time). -/
-
-mutual
-/-- `e`: some pattern list has an ellipsis and a dotted tail. -/
-def patEllRest : Pat → Bool
-  | .many p => patEllRest p
-  | .rest p => patEllRest p
-  | .nested ps => (ps.any Pat.isMany && (match ps.getLast? with | some (.rest _) => true | _ => false))
-                    || patEllRestList ps
-  | _ => false
-def patEllRestList : List Pat → Bool
-  | [] => false
-  | p :: ps => patEllRest p || patEllRestList ps
-end
 
 mutual
 /-- `f`: a pattern variable occurs in the template under a number of ellipses different from its depth. -/
@@ -860,7 +849,6 @@ def compileCase (name : Name) (lits : List Name) (pattern body : Sexp) : Except 
             let fo := freeOcc (2 * body.size + 2) [] body
             let sfl : Flags :=
               { d := r.2.any (fun x => fo.contains x),
-                e := patEllRest (.nested pats),
                 f := depthMismatch depths (2 * body.size + 2) 0 body }
             .ok { pats := Pat.mangleList pats, body := r.1, intro := r.2, depths := depths, sflags := sfl }
   | _ => .error .badSyntax
@@ -1390,7 +1378,7 @@ def compileAll : List Sexp → Except Err (List Macro)
                  | .error e => .error e
                  | .ok ms => .ok (ms ++ [m])      -- later definitions are found first
 
-/-- The static flags (`d`,`e`,`f`) of all macro definitions of a program (used when M's expansion fails). -/
+/-- The static flags (`d`,`f`) of all macro definitions of a program (used when M's expansion fails). -/
 def staticFlags (p : Prog) : Flags :=
   match compileAll (p.forms.filter isDefineSyntax) with
   | .error _ => {}
